@@ -241,9 +241,6 @@ func (g *goRoute) bad() string {
 // every pool key and every present key reads as in the model, Len is a border,
 // a full traversal returns exactly the model's pairs.
 func (g *goRoute) stepCheck(noScan bool) string {
-	if err := g.t.VerifCheckInvariants(); err != nil {
-		return "VerifCheckInvariants: " + err.Error()
-	}
 	msg := guard(func() string {
 		for i, kv := range g.w.poolVals {
 			want, ok := g.m.m[poolNorm[i]]
@@ -264,10 +261,19 @@ func (g *goRoute) stepCheck(noScan bool) string {
 		}
 		return g.m.checkLen(g.t.Len())
 	})
-	if msg != "" || noScan {
+	if msg == "" && !noScan {
+		msg = g.scan(nil)
+	}
+	if msg != "" {
 		return msg
 	}
-	return g.scan(nil)
+	// extra: the representation invariants of hashtable.go (hook, tag verif)
+	return guard(func() string {
+		if err := g.t.VerifCheckInvariants(); err != nil {
+			return "VerifCheckInvariants: " + err.Error()
+		}
+		return ""
+	})
 }
 
 // run executes one primitive step and the invariant after it.
